@@ -324,6 +324,21 @@ def rule_r01g(chk):
                     if kind == "call" and b.callee(dx) == "<compiler::state::TypeState as std::clone::Clone>::clone":
                         origin = dbb
             restores.append((bi, origin))
+    # equivalent whole-state writes: `state.clone_from(&x)`, `mem::replace(state, x)`, `mem::swap(state, &mut x)`
+    for bb_, t_ in b.calls():
+        cal_ = b.callee(t_)
+        if re.search(r"Clone>?::clone_from$|std::mem::(replace|swap)(::<.*>)?$", cal_) and len(t_["args"]) >= 2 and not b.is_cleanup(bb_):
+            first = op_local(t_["args"][0])
+            if first is None or state_param not in cfgq.ref_chain(b, first):
+                continue
+            src = op_local(t_["args"][1])
+            origin = None
+            for x in cfgq.ref_chain(b, src) if src is not None else []:
+                for kind, dbb, dsi, dx in b.defs().get(x, []):
+                    if kind == "call" and b.callee(dx) == "<compiler::state::TypeState as std::clone::Clone>::clone":
+                        origin = dbb
+            restores.append((bb_, origin))
+
     def clone_between(origin, after, before):
         return origin is not None and (after is None or b.dominates(after, origin)) and b.dominates(origin, before) and origin != before
     # (1) before the else block: restore from a clone taken after the predicate and before the if block
